@@ -155,11 +155,15 @@ where
             let x = (inv_b + one).floor();
             let mut ratio = x.powf(-self.s);
             if x > one {
+                #[cfg(rand_distr_verif)]
+                crate::verif_hooks::probe(65);
                 ratio = ratio * inv_b.powf(self.s)
             };
 
             let y = rng.sample(StandardUniform);
             if y < ratio {
+                #[cfg(rand_distr_verif)]
+                crate::verif_hooks::probe(64);
                 return x;
             }
         }
